@@ -54,10 +54,13 @@ type normalizer struct {
 	decl    map[types.Object]*ast.FuncDecl
 	declPkg map[types.Object]*packages.Package
 	closure map[types.Object]*ast.FuncLit // single-assignment local closures (`f := func(..){..}`, only ever called)
-	// the statement that defines such a closure and nothing else (`f := func..`, `var f = func..`): when every call
-	// of the closure was inlined the statement is dropped, so that the variables the literal captured are ordinary
-	// locals again (a captured variable is a heap cell in SSA form, not a value the rules can follow)
-	closureDef map[types.Object]ast.Stmt
+	// dead closures: once EVERY call of such a closure has been replaced by its body nothing refers to the
+	// function value any more, and the statement that declares it is removed (closureEdits). A literal that
+	// stays in the text keeps capturing its free variables, which go/ssa then turns into heap cells: every
+	// read of `sensor` becomes a separate load and the rules lose the identity of the value.
+	closureStmt  map[types.Object]ast.Stmt // the declaring statement, if it is a plain member of a statement list
+	closureCalls map[types.Object]int      // number of call sites of the closure in its function
+	keepClosures bool                      // fall-back mode: never remove a literal
 	src     map[string][]byte
 	n       int
 	busy    map[types.Object]bool
@@ -68,6 +71,10 @@ type normalizer struct {
 	// function-typed parameters of a helper being inlined whose argument is a method value `x.m` of a stable
 	// receiver: calls of the parameter in the inlined body are spelled `<temp>.m(..)` (funcParamSubst)
 	subst map[types.Object]string
+	// normalize_tables.go: parameters of the helper being inlined that are bound to an immutable table of functions
+	// at the site being expanded, and the tables found so far
+	tables    map[types.Object]*funcTable
+	tableMemo map[*types.Var]*funcTable
 }
 
 type textEdit struct {
@@ -361,7 +368,7 @@ func (nz *normalizer) findSite(info *types.Info, s ast.Stmt, skip map[*ast.CallE
 				return false
 			}
 			// a new helper: its receiver and arguments are bound, in order, by the expansion itself
-			if cal := typeutil.Callee(info, x); cal != nil && nz.liftable(cal) { // [std] was isNewHelper
+			if cal := nz.calleeOf(info, x); cal != nil && nz.liftable(cal) { // [std] was isNewHelper; [tables] calleeOf
 				first = x
 				firstPath = append([]ast.Node{}, path...)
 				path = path[:len(path)-1]
@@ -402,7 +409,7 @@ func (nz *normalizer) findSite(info *types.Info, s ast.Stmt, skip map[*ast.CallE
 	if first == nil {
 		return nil, "", false
 	}
-	callee := typeutil.Callee(info, first)
+	callee := nz.calleeOf(info, first)
 	if callee == nil || !nz.liftable(callee) { // [std] was isNewHelper
 		return nil, "", false
 	}
@@ -499,7 +506,8 @@ func (nz *normalizer) bodyText(callee types.Object, label string, results []stri
 	defer delete(nz.busy, callee)
 	file := nz.fileOf(pk, d)
 	edits := nz.stmtEdits(pk, file, d.Body)
-	// (a closure of the callee whose calls were inlined stays "used", or is dropped, in the inlined copy as well: closureEdits)
+	// (the literals of the callee's own closures are kept "used" or removed by stmtEdits: closureEdits)
+	edits = append(edits, nz.tableRespell(pk, d.Body)...) // [tables]
 	if len(nz.subst) > 0 {
 		ast.Inspect(d.Body, func(n ast.Node) bool {
 			if c, ok := n.(*ast.CallExpr); ok {
@@ -687,7 +695,10 @@ func (nz *normalizer) expansion(pk *packages.Package, file *ast.File, site *inli
 			}
 		}
 	}
+	// [tables] parameters bound to an immutable function table: calls through them are static calls in this body
+	unbind := nz.bindTables(pk, site, sig, tsig)
 	inner, okB := nz.bodyText(callee, id, temps)
+	unbind()
 	if !okB {
 		nz.Log = append(nz.Log, fmt.Sprintf("not inlined: %s (recursive)", objName(callee)))
 		return "", nil, false
@@ -717,7 +728,7 @@ func (nz *normalizer) stmtEdits(pk *packages.Package, file *ast.File, root ast.N
 	var edits []textEdit
 	info := pk.TypesInfo
 	seq := 0
-	lifted := map[*ast.CallExpr]bool{} // the calls this walk replaced by the temporaries of their expansion
+	inlined := map[types.Object]int{} // closure -> calls below root that were replaced by the body
 	var handle func(s ast.Stmt, elseIf bool)
 	handle = func(s ast.Stmt, elseIf bool) {
 		target := s
@@ -857,12 +868,13 @@ func (nz *normalizer) stmtEdits(pk *packages.Package, file *ast.File, root ast.N
 				edits = append(edits, textEdit{nz.off(s.Pos()), nz.off(s.Pos()), prelude, seq})
 				seq++
 				edits = append(edits, textEdit{nz.off(site.call.Pos()), nz.off(site.call.End()), "", seq})
-				lifted[site.call] = true
+				inlined[site.callee]++
 				break
 			}
 			if len(temps) == 0 {
 				break
 			}
+			inlined[site.callee]++
 			open := ""
 			if elseIf && !opened {
 				open = "{ "
@@ -872,7 +884,6 @@ func (nz *normalizer) stmtEdits(pk *packages.Package, file *ast.File, root ast.N
 			edits = append(edits, textEdit{nz.off(s.Pos()), nz.off(s.Pos()), open + prelude, seq})
 			seq++
 			edits = append(edits, textEdit{nz.off(replaced.Pos()), nz.off(replaced.End()), repl, seq}) // [std] was site.call
-			lifted[site.call] = true
 			if guard != "" || site.replace != nil || nz.isStd(site.callee) {
 				break
 			}
@@ -936,37 +947,31 @@ func (nz *normalizer) stmtEdits(pk *packages.Package, file *ast.File, root ast.N
 		}
 		return true
 	})
-	return append(edits, nz.closureEdits(pk, root, lifted)...)
+	return append(edits, nz.closureEdits(root, inlined)...)
 }
 
-// closureEdits decides, for every inlinable closure defined below root, what becomes of its definition: when
-// every call of the closure (all of them lie in the scope of its variable, hence below root) was replaced by its
-// expansion, the defining statement is dropped - creating a function value has no effect, nothing refers to the
-// variable any more, and the variables the literal captured stop being captured; otherwise the variable stays
-// declared and is kept "used" (`; _ = f`).
-func (nz *normalizer) closureEdits(pk *packages.Package, root ast.Node, lifted map[*ast.CallExpr]bool) []textEdit {
+// closureEdits: what becomes of the literals of the inlinable closures declared below root. A closure whose calls
+// were ALL replaced by its body (inlined counts the replaced calls below root; the closure is only ever called,
+// findClosures) is dead: the declaring statement is removed, its line breaks kept so that every other position
+// stays what it is. Creating a function value has no effect, so this preserves behaviour; and should a call
+// have survived after all (an edit that was dropped as overlapping) the name is undeclared, the normalised
+// sources do not type-check and the loader falls back to literals that stay (keepClosures). Any other literal
+// stays where it is and its variable is kept "used" by `; _ = f`.
+func (nz *normalizer) closureEdits(root ast.Node, inlined map[types.Object]int) []textEdit {
 	var out []textEdit
 	for obj, lit := range nz.closure {
-		if nz.declPkg[obj] != pk || !(root.Pos() <= lit.Pos() && lit.End() <= root.End()) {
+		if !(root.Pos() <= lit.Pos() && lit.End() <= root.End()) {
 			continue
 		}
-		def := nz.closureDef[obj]
-		all, n := def != nil, 0
-		ast.Inspect(root, func(m ast.Node) bool {
-			if c, ok := m.(*ast.CallExpr); ok {
-				if id, ok := c.Fun.(*ast.Ident); ok && pk.TypesInfo.Uses[id] == obj {
-					n++
-					if !lifted[c] {
-						all = false
-					}
-				}
+		st := nz.closureStmt[obj]
+		if !nz.keepClosures && st != nil && nz.closureCalls[obj] > 0 && inlined[obj] == nz.closureCalls[obj] {
+			b := nz.fileBytes(nz.fset.Position(st.Pos()).Filename)
+			lo, hi := nz.off(st.Pos()), nz.off(st.End())
+			if b != nil && lo < hi && hi <= len(b) {
+				out = append(out, textEdit{lo, hi, strings.Repeat("\n", bytes.Count(b[lo:hi], []byte("\n"))), 1 << 19})
+				nz.Log = append(nz.Log, fmt.Sprintf("removed closure %s at %s (every call was inlined)", obj.Name(), nz.fset.Position(st.Pos())))
+				continue
 			}
-			return true
-		})
-		if all && n > 0 {
-			out = append(out, textEdit{nz.off(def.Pos()), nz.off(def.End()), "", 0})
-			nz.Log = append(nz.Log, fmt.Sprintf("closure %s: every call inlined, definition dropped at %s", obj.Name(), nz.fset.Position(def.Pos())))
-			continue
 		}
 		out = append(out, textEdit{nz.off(lit.End()), nz.off(lit.End()), "; _ = " + obj.Name(), 1 << 19})
 	}
@@ -975,8 +980,14 @@ func (nz *normalizer) closureEdits(pk *packages.Package, root ast.Node, lifted m
 
 // BuildOverlay returns the normalised sources of the files that call new helpers.
 func BuildOverlay(pkgs []*packages.Package, pinned map[string]bool) (map[string][]byte, []string) {
+	return buildOverlay(pkgs, pinned, false)
+}
+
+// buildOverlay: keepClosures is the fall-back in which no closure literal is removed (closureEdits).
+func buildOverlay(pkgs []*packages.Package, pinned map[string]bool, keepClosures bool) (map[string][]byte, []string) {
 	nz := &normalizer{pkgs: pkgs, pinned: pinned, decl: map[types.Object]*ast.FuncDecl{}, declPkg: map[types.Object]*packages.Package{},
-		src: map[string][]byte{}, busy: map[types.Object]bool{}, closure: map[types.Object]*ast.FuncLit{}, closureDef: map[types.Object]ast.Stmt{}}
+		src: map[string][]byte{}, busy: map[types.Object]bool{}, closure: map[types.Object]*ast.FuncLit{},
+		closureStmt: map[types.Object]ast.Stmt{}, closureCalls: map[types.Object]int{}, keepClosures: keepClosures}
 	anyNew := false
 	for _, pk := range pkgs {
 		if !strings.HasPrefix(pk.PkgPath, Mod) {
@@ -1035,7 +1046,7 @@ func BuildOverlay(pkgs []*packages.Package, pinned map[string]bool) (map[string]
 					delete(nz.busy, self)
 				}
 			}
-			// (the variable of an inlined closure stays declared and "used", or goes with its definition: closureEdits)
+			// (the variable of a closure whose literal stays is kept "used" by stmtEdits: closureEdits)
 			// flat views: a copy `<name>__flat` of a designated function with its private helpers inlined as well,
 			// placed on the line of the original's closing brace (all other positions stay as they are)
 			for _, d := range f.Decls {
@@ -1104,9 +1115,30 @@ func (nz *normalizer) findClosures(pk *packages.Package, fd *ast.FuncDecl) {
 	info := pk.TypesInfo
 	cands := map[types.Object]*ast.FuncLit{}
 	idents := map[types.Object]*ast.Ident{}
-	defs := map[types.Object]ast.Stmt{}
+	stmtOf := map[types.Object]ast.Stmt{} // the declaring statement (`f := func..` or a `var f = func..` of its own)
+	inList := map[ast.Stmt]bool{}         // statements that are plain members of a statement list
 	ast.Inspect(fd.Body, func(n ast.Node) bool {
 		switch x := n.(type) {
+		case *ast.BlockStmt:
+			for _, s := range x.List {
+				inList[s] = true
+			}
+		case *ast.CaseClause:
+			for _, s := range x.Body {
+				inList[s] = true
+			}
+		case *ast.CommClause:
+			for _, s := range x.Body {
+				inList[s] = true
+			}
+		case *ast.DeclStmt:
+			if gd, ok := x.Decl.(*ast.GenDecl); ok && gd.Tok == token.VAR && len(gd.Specs) == 1 {
+				if vs, ok := gd.Specs[0].(*ast.ValueSpec); ok && len(vs.Names) == 1 && len(vs.Values) == 1 {
+					if obj := info.Defs[vs.Names[0]]; obj != nil {
+						stmtOf[obj] = x
+					}
+				}
+			}
 		case *ast.AssignStmt:
 			if x.Tok == token.DEFINE && len(x.Lhs) == 1 && len(x.Rhs) == 1 {
 				if id, ok := x.Lhs[0].(*ast.Ident); ok {
@@ -1114,18 +1146,7 @@ func (nz *normalizer) findClosures(pk *packages.Package, fd *ast.FuncDecl) {
 						if obj := info.Defs[id]; obj != nil {
 							cands[obj] = lit
 							idents[obj] = id
-							defs[obj] = x
-						}
-					}
-				}
-			}
-		case *ast.DeclStmt:
-			// `var f = func..` as the only specification of its declaration
-			if gd, ok := x.Decl.(*ast.GenDecl); ok && gd.Tok == token.VAR && len(gd.Specs) == 1 {
-				if vs, ok := gd.Specs[0].(*ast.ValueSpec); ok && len(vs.Names) == 1 && len(vs.Values) == 1 {
-					if _, isLit := vs.Values[0].(*ast.FuncLit); isLit {
-						if obj := info.Defs[vs.Names[0]]; obj != nil {
-							defs[obj] = x
+							stmtOf[obj] = x
 						}
 					}
 				}
@@ -1169,6 +1190,7 @@ func (nz *normalizer) findClosures(pk *packages.Package, fd *ast.FuncDecl) {
 	for o := range cands {
 		ok[o] = true
 	}
+	calls := map[types.Object]int{}
 	ast.Inspect(fd.Body, func(n ast.Node) bool {
 		id, isId := n.(*ast.Ident)
 		if !isId {
@@ -1179,6 +1201,7 @@ func (nz *normalizer) findClosures(pk *packages.Package, fd *ast.FuncDecl) {
 		if !isCand {
 			return true
 		}
+		calls[obj]++
 		if !callFun[id] {
 			ok[obj] = false // used as a value, reassigned, deferred or started as a goroutine
 		}
@@ -1192,11 +1215,12 @@ func (nz *normalizer) findClosures(pk *packages.Package, fd *ast.FuncDecl) {
 			continue
 		}
 		nz.closure[o] = lit
-		if d := defs[o]; d != nil {
-			nz.closureDef[o] = d
-		}
 		nz.decl[o] = &ast.FuncDecl{Name: idents[o], Type: lit.Type, Body: lit.Body}
 		nz.declPkg[o] = pk
+		if st := stmtOf[o]; st != nil && inList[st] {
+			nz.closureStmt[o] = st
+		}
+		nz.closureCalls[o] = calls[o] // every use is a call (checked above)
 	}
 }
 
